@@ -93,6 +93,13 @@ func (d *asaDev) lineMatches(body string, p pkt) (permit, hit bool) {
 			return permit, false
 		}
 	}
+	if len(rest) >= 3 && rest[0] == "range" {
+		lo, _ := strconv.Atoi(rest[1])
+		hi, _ := strconv.Atoi(rest[2])
+		if p.port < lo || p.port > hi {
+			return permit, false
+		}
+	}
 	if proto == "icmp" && len(rest) >= 1 && rest[0] != "log" {
 		// ICMP type (canonical bodies carry the number)
 		t := rest[0]
